@@ -351,6 +351,9 @@ def run(tier, seed):
             for ks in keysets:
                 for path in ("native", "http"):
                     items.append((path, ks, certs))
+                    if MALFORMED in certs and len(certs) > 1:
+                        # the unparseable entry FIRST: what follows it must still be looked at
+                        items.append((path, ks, (MALFORMED,) + tuple(c for c in certs if c != MALFORMED)))
     fixtures(seed)
     res = common.pmap(_chunk, items, (seed, tier))
     offs, orders = times_and_orders(tier)
